@@ -72,7 +72,19 @@ func VerifC01Docs() {
 	}
 	write := func(r *vstubodb.Replica) {
 		ds := r.Store.(*orbitDBDocumentStore)
-		switch vstub.NdChoice("op", 3) {
+		switch vstub.NdChoice("op", 4) {
+		case 3:
+			// batch put as separate operations: both documents are written, the last one's operation is returned
+			k1, k2 := asciiKey("key", 1), asciiKey("key", 1)
+			before := r.Store.OpLog().Len()
+			op, err := ds.PutBatch(ctx, []interface{}{doc(k1), doc(k2)})
+			if err != nil || op == nil {
+				vstub.Fail("C07 PutBatch failed")
+				return
+			}
+			vstub.Assert(r.Store.OpLog().Len() == before+2, "C07 PutBatch writes one operation per document")
+			vstub.Assert(op.GetKey() != nil && *op.GetKey() == k2, "C07 PutBatch returns the operation of the last document")
+			vstub.Cover("put-batch")
 		case 0:
 			if _, err := ds.Put(ctx, doc(asciiKey("key", 1))); err != nil {
 				vstub.Fail("C01 Put failed")
